@@ -120,13 +120,13 @@ theorem c18_concrete_no_dh_without_cookie (s : HSt) (m : Msg) (enc : Bool) (expe
 /-- the complete answer of `process_ike_sa_init_request` to a well-formed request without the valid cookie: the COOKIE
     notification carrying the expected value; the object, its successor, the kernel untouched; exactly one oracle value consumed -/
 theorem c18_concrete_cookie_answer (me : XSa) (succ : Option XSa) (m : Msg) (expected : Bytes) (rest : List TVal) (bad : Bool)
-    (ps : List Proposal) (nonce : Bytes) (g : Nat) (ke : Bytes)
+    (ps : List Proposal) (nonce : Bytes) (g : Nat) (ke : Bytes) (sad : List (Bytes × Nat × Bytes))
     (hst : me.core.st = stINITIAL) (hc : me.core.cookie = true)
     (h1 : paySA m false = .ok ps) (h2 : payNonce m false = .ok nonce) (h3 : payKE m false = .ok (g, ke))
     (hbad : ∀ p sp d tl, getNotifies m nCOOKIE false = (p, sp, d) :: tl → d ≠ expected) :
-    let o := runH (processIkeSaInitRequest m) me succ { vals := TVal.bytes expected :: rest, bad := bad }
+    let o := runH (processIkeSaInitRequest m) me succ { vals := TVal.bytes expected :: rest, bad := bad } sad
     o.res = .ikeError (mkNotify 0 nCOOKIE [] expected) ∧ o.me = me ∧ o.succ = succ ∧ o.nl = [] ∧ o.tape.vals = rest :=
-  processIkeSaInitRequest_cookie me succ m expected rest bad ps nonce g ke hst hc h1 h2 h3 hbad
+  processIkeSaInitRequest_cookie me succ m expected rest bad ps nonce g ke sad hst hc h1 h2 h3 hbad
 
 /-- the valid cookie (first COOKIE notification = the expected value) passes the check and only the cookie oracle is consumed;
     without the cookie secret nothing is checked and nothing consumed -/
